@@ -291,7 +291,8 @@ def _worker(args):
 # ----------------------------------------------------------------------------- parent
 def write_replay(prop, check_name, failure, seed, tier):
     v = failure["violations"][0]
-    d = os.path.join(env.VERIF_DIR, "replays", prop)
+    # runs against a deliberately changed tree (mutants, seeded changes) must not touch the regression corpus
+    d = os.path.join(env.WORK_DIR, "changed_tree", "replays", prop) if os.environ.get("VERIF_MUTANT") else os.path.join(env.VERIF_DIR, "replays", prop)
     os.makedirs(d, exist_ok=True)
     h = digest_of(failure["case"])[:10]
     safe = re.sub(r"[^A-Za-z0-9_.-]+", "_", v["sig"])[:60]
@@ -443,8 +444,9 @@ def run_property(prop: str, tier: str, seed: int, only: Optional[str] = None) ->
         "violations": len(by_sig),
     }
     if not only:
-        os.makedirs(os.path.join(env.VERIF_DIR, "evidence"), exist_ok=True)
-        with open(os.path.join(env.VERIF_DIR, "evidence", f"{prop}.json"), "w") as f:
+        ev_dir = os.path.join(env.WORK_DIR, "changed_tree", "evidence") if os.environ.get("VERIF_MUTANT") else os.path.join(env.VERIF_DIR, "evidence")
+        os.makedirs(ev_dir, exist_ok=True)
+        with open(os.path.join(ev_dir, f"{prop}.json"), "w") as f:
             json.dump(evidence, f, indent=1, sort_keys=True, default=str)
     print(
         f"{prop} tier={tier} seed={seed} evaluations={evaluations} "
